@@ -179,7 +179,12 @@ def run(ctx):
 
     ccfg = _CFG(col)
     repl = [n for n in ccfg.nodes if n.kind == "stmt" and isinstance(n.ast, ast.Assign) and isinstance(n.ast.targets[0], ast.Subscript) and src(n.ast.targets[0].value).endswith(".child_jobs") and ".index(self)" in src(n.ast.targets[0].slice) and src(n.ast.value) == col.args.args[1].arg]
-    ok = bool(repl) and ccfg.must_pass(ccfg.entry, repl)
+    # the one admissible way around the replacement: the duplicate is no longer in the list (its parent finished and cleared its children)
+    absent = []
+    for t4 in ccfg.nodes:
+        if t4.kind == "test" and isinstance(t4.ast, ast.Compare) and len(t4.ast.ops) == 1 and isinstance(t4.ast.ops[0], ast.In) and src(t4.ast.left) == "self" and src(t4.ast.comparators[0]).endswith(".child_jobs"):
+            absent += ccfg.edge_nodes(t4, "F")
+    ok = bool(repl) and ccfg.must_pass(ccfg.entry, set(repl) | set(absent))
     r4.check(ok, f"{m.rel}:Job.collapse:slot-replaced", "collapsing a duplicate does not, on every path, replace the duplicate's slot in the parent's child list by the twin: the parent's child call hashes (hashed with multiplicity) then depend on whether the twin was still running or already cached", m.rel, col.lineno)
     muts = []
     for mod in repo.modules.values():
